@@ -24,6 +24,8 @@ type SimMem struct {
 	// Reenter, when set, runs at the start of every Read and Write: a device whose accesses
 	// have side effects that go back to the bus it sits on (a mirror, a DMA trigger)
 	Reenter func(addr uint32)
+	// OnWrite, when set, runs at the start of every Write (a bank-switching register)
+	OnWrite func(addr uint32, v byte)
 }
 
 type MemEvent struct {
@@ -74,6 +76,9 @@ func (m *SimMem) Write(addr uint32, v byte) {
 	}
 	if m.Reenter != nil {
 		m.Reenter(addr)
+	}
+	if m.OnWrite != nil {
+		m.OnWrite(addr, v)
 	}
 	m.Writes++
 	if addr >= 1<<24 {
